@@ -30,6 +30,7 @@ class Unit:
         self.sentinel = sentinel
         self.sentinels = []
         self.relaxed = []
+        self.disabled_hints = set()
         self.repo = repo
         self.verif = verif
         self.out = []
@@ -255,7 +256,10 @@ class Unit:
             edits = []
             for lc in c.loops:
                 if lc.ordinal >= len(loops):
-                    raise LostAnchor('%s: loop #%d not found (%d loops)' % (key, lc.ordinal, len(loops)))
+                    # relaxed anchor: the loop this contract was written for is gone; the contract is skipped and the
+                    # function-level obligations decide
+                    self.relaxed.append('%s: loop #%d not found (%d loops), loop contract skipped' % (key, lc.ordinal, len(loops)))
+                    continue
                 kw, hdr, bopen = loops[lc.ordinal]
                 if hdr != lc.fingerprint:
                     # relaxed anchor: the loop header text changed; keep the contract on the loop with the same ordinal
@@ -285,9 +289,14 @@ class Unit:
                 self.relaxed.append('%s: hint anchor %r #%d not found, hint skipped' % (key, anchor, nth))
                 continue
             i = idxs[nth]
-            ins = [l for l in lines]
+            hid = '%s#%s%d:%s' % (key, where_, nth, anchor[:40])
+            if hid in self.disabled_hints:
+                self.relaxed.append('%s: hint %s %d %r dropped (it no longer type-checks in the changed code)' % (key, where_, nth, anchor[:40]))
+                continue
+            ins = ['//@hint ' + hid] + [l for l in lines]
             while ins and not ins[-1].strip():
                 ins.pop()
+            ins.append('//@endhint')
             if where_ == 'before':
                 blines[i:i] = ins
             else:
